@@ -156,7 +156,7 @@ def ntt_extra(ths, tier='quick'):
         # the flat element count n*ncols crossing the threshold with a small transform
         for n in (256, 64, 16):
             k = c // n + 1
-            if 1 <= k <= 96 and n * k <= 40000:
+            if 1 <= k <= 96 and n * k <= 9000:
                 for kk in (k - 1, k, k + 1):
                     if kk >= 1:
                         for nphase in (3, 2):
